@@ -340,9 +340,12 @@ class Ref:
                 return str(v)
             raise FieldError
         try:
-            return t.coerce_output_value(v)
+            r = t.coerce_output_value(v)
         except Exception:  # noqa: BLE001
             raise FieldError from None
+        if r is None:
+            raise FieldError  # result coercion must produce a value or a field error
+        return r
 
 
 def execute(schema, document, root, variables=None, operation_name=None):
